@@ -68,6 +68,19 @@ def run(ctx):
     if r.returncode != 0 or not os.path.exists(outp):
         raise vlib.Infra("record driver failed: " + (r.stdout + r.stderr)[-3000:])
     events = vlib.read_ndjson(outp)
+    # a concurrent reader that decodes every *.cptv as soon as its name appears in the directory
+    obs_out = ctx.path("run", "observer.ndjson")
+    r = subprocess.run([binp, "-test.run", "^TestVerifObserver$"], env=dict(os.environ, VERIF_OUT=obs_out, VERIF_N=str(25 if tier == "quick" else 300)),
+                       capture_output=True, text=True, timeout=900)
+    if r.returncode != 0 or not os.path.exists(obs_out):
+        raise vlib.Infra("observer run failed: " + (r.stdout + r.stderr)[-2000:])
+    nobs = 0
+    with open(outp, "a") as f:
+        for e in vlib.read_ndjson(obs_out):
+            if e["ev"] == "observe":
+                nobs += 1
+                f.write(json.dumps(e) + "\n")
+    events = vlib.read_ndjson(outp)
     import fam_e2e
     e2e_events, e2e_stats, e2e_design = fam_e2e.c11_events(ctx, binp)
     nev = len(events)
@@ -116,7 +129,7 @@ def run(ctx):
                     samples=[dict(script={k: scripts[0][k] for k in scripts[0] if k != "recordings"},
                                   decoded_header={k: files[0]["decoded"][k] for k in files[0]["decoded"] if k != "frames"})] if files else [{}],
                     files_decoded=len(files), files_through_throttle=sum(1 for e in events if e["ev"] == "tfile"),
-                    frames_compared=frames, e2e=e2e_stats, config_reload_beyond_listed_properties=cw,
+                    frames_compared=frames, files_decoded_by_concurrent_reader=nobs, e2e=e2e_stats, config_reload_beyond_listed_properties=cw,
                     evaluations=len(scripts) + e2e_stats.get("runs", 0),
                     distinct_nontrivial=len({json.dumps(s, sort_keys=True) for s in scripts}) + e2e_stats.get("runs", 0),
                     rule="generated device/camera/location/motion descriptions x pixel generators (full range, 0, 65535, "
